@@ -8,12 +8,12 @@ import (
 	"fmt"
 	uf "github.com/cloudwego/gopkg/protocol/thrift/unknownfields"
 	"github.com/cloudwego/gopkg/unsafex"
+	"io"
 	"math/rand"
 	"os"
-	"io"
 	"os/exec"
-	"reflect"
 	"path/filepath"
+	"reflect"
 	"strings"
 	"sync"
 	"sync/atomic"
@@ -447,7 +447,7 @@ func stressRestOfAPI(g, c int, rng *rand.Rand) bool {
 	}
 	hl := sw.WrittenLen()
 	sw.WriteBinary(payload[:50])
-	tl[0], tl[1], tl[2], tl[3] = byte((hl + 50 - 4) >> 24), byte((hl + 50 - 4) >> 16), byte((hl + 50 - 4) >> 8), byte(hl + 50 - 4)
+	tl[0], tl[1], tl[2], tl[3] = byte((hl+50-4)>>24), byte((hl+50-4)>>16), byte((hl+50-4)>>8), byte(hl+50-4)
 	if sw.Flush() != nil {
 		ok = false
 	}
